@@ -157,6 +157,12 @@ TabDevDef == PairsToFun({<<id, MkDv(DescOf(id), Dev)>> : id \in TypeIds})
 ASSUME TLCSet(1, TabIdealDef) /\ TLCSet(2, TabDevDef)
 TabIdeal == TLCGet(1)
 TabDev == TLCGet(2)
+\* the same tables with EVERY optional row adopted: for an optional row that is
+\* not (yet) adopted, naming it and not naming it both conform
+TabAllDef == PairsToFun({<<id, MkDv([DescOf(id) EXCEPT !.adopted = Optional(DescOf(id))], {})>> : id \in TypeIds})
+ASSUME TLCSet(4, TabAllDef)
+TA(id) == TLCGet(4)[id]
+Undecided(id, c) == HasName(TA(id), c) /\ ~HasName(TabIdeal[id], c)
 TI(id) == TabIdeal[id]
 TD(id) == TabDev[id]
 
